@@ -796,10 +796,6 @@ func (db *RockDB) StrLen(key []byte) (int64, error) {
 }
 
 func (db *RockDB) Append(ts int64, rawKey []byte, value []byte) (int64, error) {
-	if len(value) == 0 {
-		return 0, nil
-	}
-
 	keyInfo, realV, err := db.prepareKVValueForWrite(ts, rawKey, false)
 	if err != nil {
 		return 0, err
@@ -807,6 +803,10 @@ func (db *RockDB) Append(ts int64, rawKey []byte, value []byte) (int64, error) {
 	if keyInfo.Expired {
 		// the old value is dead, the write starts from empty
 		realV = nil
+	}
+	if len(value) == 0 && realV != nil {
+		// nothing to append: the reply is the current length of the string (as redis does)
+		return int64(len(realV)), nil
 	}
 	if len(realV)+len(value) > MaxValueSize {
 		return 0, errValueSize
